@@ -15,8 +15,8 @@ from . import core
 from .core import EXIT_HARNESS, EXIT_OK, EXIT_VIOLATION, Violation
 
 KNOWN_FILE = os.path.join(core.VERIF_ROOT, "known_findings.json")
-REPLAY_DIR = os.path.join(core.VERIF_ROOT, "replays")
-EVIDENCE_DIR = os.path.join(core.VERIF_ROOT, "evidence")
+REPLAY_DIR = os.environ.get("NIMASIM_REPLAY_DIR") or os.path.join(core.VERIF_ROOT, "replays")
+EVIDENCE_DIR = os.environ.get("NIMASIM_EVIDENCE_DIR") or os.path.join(core.VERIF_ROOT, "evidence")
 
 PER_RUN_WALL_S = 120
 
@@ -255,10 +255,19 @@ def check(pid: str, tier: str, runs: int | None = None) -> int:
     except Exception as exc:  # noqa: BLE001 - pool broke / worker died / timeout
         harness_errors.append("worker pool failure: %r" % (exc,))
     records.sort(key=lambda r: r["idx"])
+    if hasattr(prop, "post_batch") and not harness_errors:
+        try:
+            pv, ps, pcase = prop.post_batch(batch, tier)
+            records.append({"idx": len(records), "seed": batch, "viols": [v.to_json() for v in pv], "stats": ps, "keys": [],
+                            "digest": core.digest([pcase, [v.to_json() for v in pv]]), "case": pcase, "post_batch": True})
+        except Exception as exc:  # noqa: BLE001
+            harness_errors.append("post-batch stage: %r" % (exc,))
 
     # determinism spot check: re-run a 2% sample in this process
     nondeterministic = []
     for rec in records[:: max(1, len(records) // max(1, len(records) // 50))][:60]:
+        if rec.get("post_batch"):
+            continue
         try:
             case, viols, stats, _ = _execute_one(pid, rec["seed"], tier)
             d = core.digest([case, [v.to_json() for v in viols], stats])
